@@ -1,11 +1,13 @@
 (* C20 - error traces always render and show the real message and failing line.
    Statements only; the proofs are in Proofs/TraceLemmas.v (highlighter, numbering, frames, report shape) and
    Proofs/LiteralLemmas.v (text put into markup by _literal is shown as it is, decorated or not, and never makes the
-   formatter fail).  tokenize / inspect / crashtest deliver the token streams and frames: they are inputs of the model;
+   formatter fail) and Proofs/TraceRenderLemmas.v (the composition: every line the renderer writes is such a line,
+   indentation keeps it one, hence render never fails once tokenize has succeeded, and what the bytes say).
+   tokenize / inspect / crashtest deliver the token streams and frames: they are inputs of the model;
    the hypotheses on token streams (row_wf, rows_ok, phys_line) are checked on every stream of every run by the harness. *)
 From Coq Require Import Lia.
 From Clikit Require Import Base.Prelude Base.Res Model.Conv Model.Markup Model.OutputM Model.Trace
-  Proofs.MarkupLemmas Proofs.TraceLemmas Proofs.LiteralLemmas.
+  Proofs.MarkupLemmas Proofs.OutputLemmas Proofs.TraceLemmas Proofs.LiteralLemmas Proofs.TraceRenderLemmas.
 
 (* ---- the code snippet numbers its lines consecutively and marks exactly the failing line ---- *)
 Theorem line_numbers_length : forall u lines mark, length (line_numbers u lines mark) = length lines.
@@ -151,3 +153,111 @@ Theorem highlighted_line_shows_the_source : forall sty sk cs,
   colorize sty false sk (render_chunks cs) = Ok (sk, flat_map (fun c => shown (snd c)) cs).
 Proof. exact render_chunks_plain. Qed.
 Print Assumptions highlighted_line_shows_the_source.
+
+(* ---- the composition: every line the renderer writes is a line of literals and safe separators ---- *)
+(* good_line sty l: l = line_str ps for pieces ps (safe separators, <tag>literal</>, <name>literal</name>) whose tags
+   resolve in the style table sty.  The styles written inline (fg=...;options=...) resolve in every table; "error" and
+   "b" must be registered. *)
+Theorem every_written_line_is_literals_and_separators : forall sty, resolvable sty st_error -> resolvable sty st_b ->
+  forall c simple ind x ls, render_lines c simple ind x = Ok ls -> Forall (fun wl => good_line sty (snd wl)) ls.
+Proof. exact render_lines_good. Qed.
+Print Assumptions every_written_line_is_literals_and_separators.
+(* "error" is one of pastel's own styles: every ANSI or plain formatter clikit builds resolves it *)
+Theorem every_formatter_resolves_error : forall k set f, new_formatter k set = Ok f -> k <> FNull -> resolvable (f_styles f) st_error.
+Proof. exact new_formatter_error. Qed.
+Print Assumptions every_formatter_resolves_error.
+(* Output's indentation (blanks in front of every non-empty line of the string) maps pieces to pieces *)
+Theorem indentation_keeps_a_line_good : forall sty n ps, pieces_ok sty ps ->
+  indent_text n (line_str ps) = line_str (ind_pieces n true ps) /\ pieces_ok sty (ind_pieces n true ps) /\
+  (pieces_noesc ps -> pieces_noesc (ind_pieces n true ps)).
+Proof.
+  intros sty n ps H. split; [exact (indent_text_pieces sty n ps H)|]. split; [exact (ind_pieces_ok sty n ps true H)|exact (ind_pieces_noesc n ps true)].
+Qed.
+Print Assumptions indentation_keeps_a_line_good.
+(* one write_line on an ordinary output with an ANSI or plain formatter whose style stack is empty: no failure, the
+   stack is empty again, the bytes are the shown texts of the indented pieces (under the escape codes when decorated) *)
+Theorem writing_a_good_line_never_fails : forall sty o ind ps,
+  out_ok sty o -> pieces_ok sty ps -> (decorated o = true -> pieces_noesc ps) ->
+  exists o' text,
+    write (with_indent o ind) (line_str ps) true true = Ok o' /\
+    out_ok sty o' /\ o_on o' = o_on o /\ f_kind (o_fmt o') = f_kind (o_fmt o) /\
+    o_buf o' = o_buf o ++ text ++ [NL] /\
+    (if decorated o then strip_sgr text else text) = flat_map piece_shown (wpieces ind ps).
+Proof. exact write_pieces. Qed.
+Print Assumptions writing_a_good_line_never_fails.
+(* the lines exist exactly when tokenize succeeded where the renderer needs it (render_cond: the last frame's file;
+   when the stack trace is printed, at debug verbosity every listed frame's file, below it no listed frame's own line
+   fails with anything but TokenError); the simple report always exists *)
+Theorem report_lines_exist_iff_tokenize_succeeded : forall c ind x,
+  (exists ls, render_lines c false ind x = Ok ls) <-> render_cond c x.
+Proof. exact render_lines_ok. Qed.
+Print Assumptions report_lines_exist_iff_tokenize_succeeded.
+(* once the lines exist nothing can fail ... *)
+Theorem writing_the_report_never_fails : forall sty c simple o x ls,
+  out_ok sty o -> resolvable sty st_error -> resolvable sty st_b ->
+  render_lines c simple (o_indent o) x = Ok ls ->
+  (decorated o = true -> Forall (fun wl => no_esc (snd wl)) ls) ->
+  exists bytes, render c simple o x = Ok bytes.
+Proof. exact render_never_fails_l. Qed.
+Print Assumptions writing_the_report_never_fails.
+(* ... so render fails only if tokenize does *)
+Theorem render_fails_only_if_tokenize_does : forall sty c simple o x,
+  out_ok sty o -> resolvable sty st_error -> resolvable sty st_b ->
+  (simple = false -> render_cond c x) ->
+  (decorated o = true -> forall ls, render_lines c simple (o_indent o) x = Ok ls -> Forall (fun wl => no_esc (snd wl)) ls) ->
+  exists bytes, render c simple o x = Ok bytes.
+Proof. exact render_never_fails. Qed.
+Print Assumptions render_fails_only_if_tokenize_does.
+(* the lines hold no ESC when the inputs hold none (class name, message, file and function names, source text, tokens;
+   the path separator is not ESC): render fails only if tokenize does, decorated or not *)
+Theorem escape_free_inputs_give_escape_free_lines : forall c simple ind x ls,
+  inputs_ne c x -> render_lines c simple ind x = Ok ls -> Forall (fun wl => no_esc (snd wl)) ls.
+Proof. exact lines_noesc. Qed.
+Print Assumptions escape_free_inputs_give_escape_free_lines.
+Theorem render_fails_only_if_tokenize_does_inputs : forall sty c simple o x,
+  out_ok sty o -> resolvable sty st_error -> resolvable sty st_b ->
+  (simple = false -> render_cond c x) -> (decorated o = true -> inputs_ne c x) ->
+  exists bytes, render c simple o x = Ok bytes.
+Proof. exact render_never_fails_inputs. Qed.
+Print Assumptions render_fails_only_if_tokenize_does_inputs.
+(* undecorated, the bytes are the shown texts of the (indented) pieces, line after line *)
+Theorem plain_report_bytes : forall sty c simple o x ls,
+  out_ok sty o -> resolvable sty st_error -> resolvable sty st_b -> decorated o = false ->
+  render_lines c simple (o_indent o) x = Ok ls ->
+  exists pls, ls = map pline_w pls /\ Forall (fun p => pieces_ok sty (snd p)) pls /\
+    render c simple o x = Ok (o_buf o ++ flat_map shown_line pls).
+Proof. exact render_plain_bytes_l. Qed.
+Print Assumptions plain_report_bytes.
+(* simple mode says the message (a blank after a trailing backslash), indented, and nothing else *)
+Theorem simple_report_says_the_message : forall sty c o x, out_ok sty o -> resolvable sty st_error -> decorated o = false ->
+  render c true o x
+  = Ok (o_buf o ++ (if (0 <? o_indent o)%Z then spaces (o_indent o) ++ shown (ind_text (o_indent o) (x_msg x)) else shown (x_msg x)) ++ [NL]).
+Proof. exact simple_bytes. Qed.
+Print Assumptions simple_report_says_the_message.
+Theorem simple_report_unindented : forall sty c o x, out_ok sty o -> resolvable sty st_error -> decorated o = false -> (o_indent o <= 0)%Z ->
+  render c true o x = Ok (o_buf o ++ shown (x_msg x) ++ [NL]).
+Proof. exact simple_bytes_0. Qed.
+Print Assumptions simple_report_unindented.
+(* the full report: stack trace, blank line, class name, blank line, message block (two more blanks after every line
+   break of the message), snippet *)
+Theorem full_report_says_name_and_message : forall sty c o x bytes,
+  out_ok sty o -> resolvable sty st_error -> resolvable sty st_b -> decorated o = false -> (0 <= o_indent o)%Z ->
+  x_frames x <> [] -> render c false o x = Ok bytes ->
+  let ind := (o_indent o + 2)%Z in
+  exists tr_p sn_p,
+    render_trace c ind (x_frames x) = Ok (map pline_w tr_p) /\
+    render_snippet c ind (last (x_frames x) dflt_frame) = Ok (map pline_w sn_p) /\
+    bytes = o_buf o ++ flat_map shown_line tr_p
+              ++ [NL] ++ spaces ind ++ shown (ind_text ind (x_name x)) ++ [NL]
+              ++ [NL] ++ spaces ind ++ shown (ind_text ind (msg_text (x_msg x))) ++ [NL]
+              ++ flat_map shown_line sn_p.
+Proof. exact full_bytes. Qed.
+Print Assumptions full_report_says_name_and_message.
+Theorem full_report_one_line_message : forall sty c o x bytes,
+  out_ok sty o -> resolvable sty st_error -> resolvable sty st_b -> decorated o = false -> (0 <= o_indent o)%Z ->
+  x_frames x <> [] -> no_nl (x_name x) -> no_nl (x_msg x) -> render c false o x = Ok bytes ->
+  let ind := (o_indent o + 2)%Z in
+  exists pre post, (pre = [] \/ exists pre', pre = pre' ++ [NL]) /\
+    bytes = o_buf o ++ pre ++ [NL] ++ spaces ind ++ shown (x_name x) ++ [NL] ++ [NL] ++ spaces ind ++ shown (x_msg x) ++ [NL] ++ post.
+Proof. exact full_bytes_one_line. Qed.
+Print Assumptions full_report_one_line_message.
